@@ -6,7 +6,7 @@ from core import BaseProp, Verdict
 from proto import T
 
 RULE = ('random tables x grammar-derived texts with repeated licenses, the same operand sets in different orders, WITH pairs and '
-        'unknown licenses, each listing call (license_symbols, license_keys, primary_license_symbol, primary_license_key, '
+        'unknown licenses (one case in ten: a table with a license whose key spells like a WITH pair next to that pair, so that two different entries render alike), each listing call (license_symbols, license_keys, primary_license_symbol, primary_license_key, '
         'unknown_license_symbols, unknown_license_keys) under every combination of unique / decompose, on the string and on the parsed '
         'object and on an expression parsed by another Licensing in another letter case, with earlier calls on permuted expressions in the same process; Spec: the listing is computed independently from '
         'the license tokens of Licensing.tokenize in text order; correspondence: every listing with the model. non-trivial = a '
@@ -42,7 +42,21 @@ def akey(a):
 
 
 class Prop(BaseProp):
+    def case_collide(self, rng):
+        """a table with a single license whose key spells like a WITH pair, next to the two parts (one reachable through
+        an alias): the text then holds the plain license 'X WITH Y' and the pair (X WITH Y), which render alike"""
+        x, y = rng.sample(['gpl', 'cp', 'mit', 'x11'], 2)
+        table = [[x, [x + '-only'], False], [y, [], rng.random() < 0.5], [x + ' WITH ' + y, [], False]]
+        rng.shuffle(table)
+        ops = [x + ' WITH ' + y, x + '-only with ' + y, x, y, x + '-only', 'foo']
+        items = [rng.choice(ops[:2]) for _ in range(2)] + [rng.choice(ops) for _ in range(rng.randint(0, 3))]
+        rng.shuffle(items)
+        op = rng.choice([' and ', ' or ', ' AND '])
+        return {'table': table, 'text': op.join(items), 'first': op.join(reversed(items))}
+
     def case_random(self, rng):
+        if rng.random() < 0.1:
+            return self.case_collide(rng)
         table = gen.gen_table(rng, maxn=4, allow_op=False, aliases=False)
         keys = [k for k, _, _ in table] + ['foo', 'zq bar']
         t = gen.gen_tree(rng, keys[:5], depth=rng.randint(1, 3), maxar=4, with_p=0.25, flags=False)
